@@ -18,7 +18,7 @@ Definition is_client_d (x : sd) : bool := N.eqb x.(d_kind) 0.
 Definition perm_d (x : sd) (p : N) : bool :=
   if is_virtual_d x then true
   else match x.(d_perms) with None => negb (N.eqb p 6) | Some m => N.testbit m p end.
-Definition empty_digest : digest := mkdigest [] [] [] [] [] [] [] [] [] 0 0 0 0 0 0 0.
+Definition empty_digest : digest := mkdigest [] [] [] [] [] [] [] [] [] 0 0 0 0 0 0 0 [].
 Definition nlen {A} (l : list A) : N := N.of_nat (length l).
 Definition room_entry (dg : digest) (k : N * N) : option (list N * list N) :=
   match find (fun e => pair_eqb (fst (fst e)) k) dg.(g_rooms) with Some (_, m, i) => Some (m, i) | None => None end.
@@ -26,7 +26,7 @@ Definition set_eqb (a b : list N) : bool := forallb (fun x => nmem x b) a && for
 Definition popcount3 (m : N) : N := (if N.testbit m 0 then 1 else 0) + (if N.testbit m 1 then 1 else 0) + (if N.testbit m 2 then 1 else 0).
 Definition op_conn (o : op) : option N :=
   match o with
-  | OHello c _ | OJoin c _ _ _ | OMsg c _ _ | OCtl c _ _ | OBye c | OInternal c _ | OMedia c _ _ _ _ | OTransient c _ _ _ => Some c
+  | OHello c _ | OHelloAborted c _ _ | OJoin c _ _ _ | OMsg c _ _ | OCtl c _ _ | OBye c | OInternal c _ | OMedia c _ _ _ _ | OTransient c _ _ _ => Some c
   | _ => None
   end.
 Definition all_msgs (ob : obs) : list (N * smsg) := flat_map (fun e => map (fun m => (fst e, m)) (snd e)) ob.(o_recv).
@@ -62,6 +62,8 @@ Fixpoint limits_ok_from (b : N) (limits : list N) (dg : digest) : bool :=
       let mine := filter (fun x => N.eqb x.(d_backend) b && is_client_d x) dg.(g_sessions) in
       (if N.eqb l 0 then forallb (fun x => negb x.(d_counted)) mine
        else (nlen mine <=? l) && forallb (fun x => x.(d_counted)) mine)
+      (* the backend's own count is the number of those sessions: no slot is held by a session that is gone *)
+      && N.eqb (nth (N.to_nat b) dg.(g_counts) 0) (nlen (filter (fun x => x.(d_counted)) mine))
       && limits_ok_from (b + 1) r dg
   end.
 
@@ -186,7 +188,7 @@ Definition step_C01 (nb : N) (pd : digest) (o : op) (ob : obs) (dg : digest) : b
                        | _ => true end) (all_msgs ob)
   (* before a successful hello every other request is answered with an error and changes nothing *)
   && match o with
-     | OHello _ _ => true
+     | OHello _ _ | OHelloAborted _ _ _ => true
      | _ => match op_conn o with
             | Some c => match sd_of_conn pd c with
                         | Some _ => true
@@ -214,7 +216,7 @@ Definition same_backend (pd dg : digest) (rb : N) (sid : N) : bool :=
 Definition op_backend (pd : digest) (o : op) : option N :=
   match o with
   | OApi b _ _ _ => Some b
-  | OHello _ (HV1 b _ _) | OHello _ (HInternal b _ _ _) => Some b
+  | OHello _ (HV1 b _ _) | OHello _ (HV2 b _ _) | OHello _ (HInternal b _ _ _) => Some b
   | OHello _ (HResume (IdPriv n)) => match find_sd pd n with Some x => Some x.(d_backend) | None => None end
   | OHello _ _ => None
   | _ => match op_conn o with
